@@ -60,7 +60,9 @@ def evaluate(an, prog, classes, leaves, calls):
     evs = []
     li = 0
     for (op, _c, k) in prog:
-        ev = {"op": op, "k": int(k) if op != "Push" else 0, "exc": "", "res": NOOBS, "bool": False}
+        ev = {"op": op, "k": int(k) if op != "Push" else 0, "exc": "", "res": NOOBS, "bool": False, "opsame": True}
+        operands = st[-2:] if op in ("Add", "Sub") or op in CMP else (st[-1:] if op != "Push" else [])
+        before = [alpha.angle_payload(x) for x in operands]
         try:
             calls[0] += 1
             if op == "Push":
@@ -104,8 +106,10 @@ def evaluate(an, prog, classes, leaves, calls):
             ev["exc"] = "%s: %s" % (type(ex).__name__, str(ex)[:80])
             evs.append(ev)
             return evs, False
+        # an operator returns a new angle: its operands still hold what they held (an expression may use a value twice)
+        ev["opsame"] = [alpha.angle_payload(x) for x in operands] == before
         evs.append(ev)
-    evs.append({"op": "Final", "k": 0, "exc": "", "res": NOOBS, "bool": False})
+    evs.append({"op": "Final", "k": 0, "exc": "", "res": NOOBS, "bool": False, "opsame": True})
     return evs, True
 
 
